@@ -13,8 +13,34 @@
 #include <sstream>
 #include <string>
 #include <vector>
+#include <csignal>
+#include <sys/time.h>
+#include <unistd.h>
 
 namespace vh {
+
+// Per-case CPU-time watchdog: a case that does not finish within VH_CASE_CPU_SECONDS of CPU time (a loop that a
+// broken implementation never leaves) ends the process with a "[timeout ...]" line on stderr; lib/vlib.py attributes the
+// crash to the running case and restarts the shard after it.  CPU time, not wall time, so machine load cannot trip it.
+#ifndef VH_CASE_CPU_SECONDS
+#define VH_CASE_CPU_SECONDS 60
+#endif
+inline int case_cpu_seconds() {
+	const char *e = getenv("VH_CASE_CPU_SECONDS");   // set by lib/vlib.py run_cases (0 = no limit)
+	return e ? atoi(e) : VH_CASE_CPU_SECONDS;
+}
+inline void watchdog_fire(int) {
+	static const char msg[] = "\n[timeout: case exceeded its CPU-time limit (endless loop?)]\n";
+	ssize_t r = write(2, msg, sizeof msg - 1); (void)r;
+	_exit(95);
+}
+inline void watchdog_arm(int seconds) {
+	struct itimerval it{};
+	it.it_value.tv_sec = seconds;
+	signal(SIGVTALRM, watchdog_fire);
+	setitimer(ITIMER_VIRTUAL, &it, nullptr);
+}
+
 
 struct AssertStop { std::string where; };
 
@@ -121,8 +147,10 @@ inline int run(const std::function<void(const Lines &)> &body) {
 		if(!have) return;
 		printf("#case %s\n", id.c_str()); fflush(stdout);
 		g_oracle_count = 0; g_alloc.reset(); g_life.reset();
+		watchdog_arm(case_cpu_seconds());
 		try { body(cur); }
 		catch(AssertStop &a) { printf("assert\n"); fprintf(stderr, "[case %s] %s\n", id.c_str(), a.where.c_str()); }
+		watchdog_arm(0);
 		printf("#end %s\n", id.c_str()); fflush(stdout);
 	};
 	while(std::getline(std::cin, line)) {
